@@ -91,7 +91,7 @@ impl Ctx {
 	}
 	/// record a case as distinct & non-trivial by its content hash
 	pub fn distinct(&mut self, h: u64) {
-		if self.distinct.len() < 4_000_000 {
+		if self.distinct.len() < 1_500_000 {
 			self.distinct.insert(h);
 		}
 	}
